@@ -373,7 +373,12 @@ def run(ctx):
             reqs.append({'op': 'cli', 'what': 'mibdump', 'statuses': st})
             metas.append(('mibdump', sc, rc, cats))
         # usage errors
-        for args in ([MIBDUMP], [MIBDUMP, '--no-such-option', 'X-MIB'], [MIBDUMP, '--destination-format=yaml', 'X-MIB'], [MIBCOPY, 'only-one-argument']):
+        for args in ([MIBDUMP], [MIBDUMP, '--no-such-option', 'X-MIB'], [MIBDUMP, '--destination-format=yaml', 'X-MIB'], [MIBCOPY, 'only-one-argument'],
+                     # a value no option of that kind takes is a mistake on the command line as well
+                     [MIBDUMP, '--debug=nosuchflag', '--destination-format=null', 'X-MIB'],
+                     [MIBDUMP, '--mib-borrower=gopher://h/@mib@', '--destination-format=null', 'X-MIB'],
+                     [MIBDUMP, '--mib-source=gopher://h/@mib@', '--destination-format=null', 'X-MIB'],
+                     [MIBDUMP, '--destination-format=json', '--mib-borrower=telnet://h/x', 'X-MIB']):
             rc, err = run_cmd(args)
             res.case(('usage', tuple(args[1:])), True)
             res.count('usage-errors')
@@ -393,7 +398,7 @@ def run(ctx):
                 as_dirs = (pi % 2 == 1)
                 srcargs = [os.path.dirname(cs['srcs'][k][0]) if as_dirs else cs['srcs'][k][0] for k in perm]
                 # the reporting switches change what is printed, never what is copied
-                flags = [[], ['--quiet'], ['--verbose'], ['--quiet', '--verbose'], ['--ignore-errors']][(i + pi) % 5]
+                flags = [[], ['--quiet'], ['--verbose'], ['--quiet', '--verbose'], ['--ignore-errors'], ['--dry-run']][(i + pi) % 6]
                 # the destination may be spelled in any way that names the directory
                 dst_arg = [dst, dst + os.sep, os.path.join(os.path.dirname(dst), '.', os.path.basename(dst)),
                            os.path.join(dst, os.pardir, os.path.basename(dst))][(i + 2 * pi) % 4]
@@ -410,6 +415,13 @@ def run(ctx):
                 res.oracle_failures.append({'key': 'mibcopy-exit', 'what': 'mibcopy exited with %d: %s' % (rc, err[-300:]), 'input': inp})
                 continue
             got = {f: tag_of(open(os.path.join(dst, f)).read()) for f in os.listdir(dst)}
+            if '--dry-run' in args:
+                # a dry run reports and touches nothing: the destination holds what it held
+                if got != {n: t for n, (r, t) in cs['pre'].items()}:
+                    res.oracle_failures.append({'key': 'mibcopy-dry-run', 'what': 'mibcopy --dry-run left %r in the destination, which held %r' % (
+                        got, {n: t for n, (r, t) in cs['pre'].items()}), 'input': inp})
+                res.count('mibcopy-dry-runs')
+                continue
             seen = {}
             for p, n, r, t in cs['srcs']:
                 if n is not None:
@@ -494,6 +506,8 @@ def replay(payload):
             dst_arg = re.sub(r'dst\d+', 'dst', dst_arg)
             rc, err = run_cmd([MIBCOPY] + list(inp.get('flags') or []) + ['--mib-source=file://' + BASE] + [files[k] for k in inp['order']] + [dst_arg])
             got = {f: tag_of(open(os.path.join(dst, f)).read()) for f in os.listdir(dst)}
+            if '--dry-run' in (inp.get('flags') or []):
+                return {'fails': got != {n: t for n, (r, t) in pre.items()}, 'what': got}
             seen = {}
             for fn, name, rev, tag in inp['sources']:
                 if name is not None:
